@@ -4,6 +4,7 @@ import (
 	"go/ast"
 	"go/token"
 	"go/types"
+	"sort"
 	"strings"
 
 	"golang.org/x/tools/go/ssa"
@@ -330,7 +331,7 @@ func testedErrorIsUsed(c *Ctx, rule string) {
 					}
 				}
 				if rs := fn.Signature.Results(); rs.Len() > 0 {
-					if bt, ok := rs.At(rs.Len()-1).Type().Underlying().(*types.Basic); ok && bt.Kind() == types.Bool {
+					if bt, ok := rs.At(rs.Len() - 1).Type().Underlying().(*types.Basic); ok && bt.Kind() == types.Bool {
 						decided = false // an ok-style function: the failure is what its false result says
 					}
 				}
@@ -1161,7 +1162,9 @@ func incrementalHasNextOnlyFromBatch(c *Ctx) {
 	c.R.Rule("incremental-hasnext-only-from-batch", "multipartResponseAggregator.flush: the hasNext handed to writeIncrementalJson is computed from the aggregator's deferResponses alone — every value it is built from is a constant or read through that field — not from what the initial response said", 1)
 	n := 0
 	for _, fn := range aggregatorMethods(c) {
-		for _, call := range an.CallsIn(fn, func(_ ssa.CallInstruction, ci an.CalleeInfo) bool { return ci.FullName() == pkgTransport+".writeIncrementalJson" }) {
+		for _, call := range an.CallsIn(fn, func(_ ssa.CallInstruction, ci an.CalleeInfo) bool {
+			return ci.FullName() == pkgTransport+".writeIncrementalJson"
+		}) {
 			if call.Parent() != fn || len(call.Common().Args) < 3 {
 				continue
 			}
@@ -1479,5 +1482,102 @@ func deferredLiteralUsesDeliveredContext(c *Ctx) {
 	}
 	if n < 2 {
 		c.R.Fail("deferred-literal-uses-delivered-context: only %d deferred Concurrently calls found", n)
+	}
+}
+
+// optionFieldsDistinct: two different option constructors do not plainly assign the same configuration field.
+func optionFieldsDistinct(c *Ctx, rule string, pkgs ...string) {
+	c.R.Rule(rule, "in "+strings.Join(shortPkgs(pkgs), ", ")+": among the exported functions that return a func(*Config)-style option whose literal plainly stores a parameter into a field of its argument, no two store into the same field (an option that writes its neighbour's field leaves its own setting at zero: a limit that is never enforced)", 5)
+	type site struct {
+		fn *ssa.Function
+		at ssa.Instruction
+	}
+	byField := map[string][]site{}
+	for _, fn := range c.moduleFuncs(inPkgs(pkgs)) {
+		if fn.Parent() != nil || fn.Signature.Recv() != nil || !ast.IsExported(fn.Name()) || fn.Signature.Results().Len() != 1 {
+			continue
+		}
+		if _, isFn := fn.Signature.Results().At(0).Type().Underlying().(*types.Signature); !isFn {
+			continue
+		}
+		for _, lit := range fn.AnonFuncs {
+			if len(lit.Params) != 1 {
+				continue
+			}
+			for _, b := range lit.Blocks {
+				for _, in := range b.Instrs {
+					st, ok := in.(*ssa.Store)
+					if !ok {
+						continue
+					}
+					fa, ok := st.Addr.(*ssa.FieldAddr)
+					if !ok || an.Strip(fa.X) != ssa.Value(lit.Params[0]) {
+						continue
+					}
+					// a plain store of something captured from the constructor (its parameter or a value computed from it): not an append to the field
+					if call, isCall := an.Strip(st.Val).(*ssa.Call); isCall {
+						if bi, isB := call.Call.Value.(*ssa.Builtin); isB && bi.Name() == "append" {
+							continue
+						}
+					}
+					key := types.TypeString(fa.X.Type(), func(*types.Package) string { return "" }) + "." + fieldNameOf(fa)
+					byField[key] = append(byField[key], site{fn, in})
+				}
+			}
+		}
+	}
+	n := 0
+	for key, ss := range byField {
+		n++
+		distinct := map[*ssa.Function]bool{}
+		for _, s := range ss {
+			distinct[s.fn] = true
+		}
+		if len(distinct) == 1 {
+			c.R.OK(key, c.ipos(ss[0].at), "assigned by one option")
+			continue
+		}
+		var names []string
+		for f := range distinct {
+			names = append(names, f.Name())
+		}
+		sort.Strings(names)
+		c.R.Bad(key, c.ipos(ss[len(ss)-1].at), "the options "+strings.Join(names, " and ")+" both assign "+key+": one of them writes its neighbour's field, its own setting is never stored (a complexity limit given through it is not enforced)")
+	}
+	if n < 5 {
+		c.R.Fail("%s: only %d option fields found", rule, n)
+	}
+}
+
+// validateTestsOwnFields: an extension's Validate refuses a missing setting of its own.
+func validateTestsOwnFields(c *Ctx, rule string, pkgs ...string) {
+	c.R.Rule(rule, "in "+strings.Join(shortPkgs(pkgs), ", ")+": in a Validate(schema) method, a comparison with nil whose nil outcome returns an error looks at the receiver's own settings, not at the schema handed in (the check is there to refuse a misconfigured extension at start-up)", 1)
+	n := 0
+	for _, fn := range c.moduleFuncs(inPkgs(pkgs)) {
+		if fn.Name() != "Validate" || fn.Signature.Recv() == nil || len(fn.Params) != 2 || fn.Synthetic != "" {
+			continue
+		}
+		for _, b := range fn.Blocks {
+			iff, ok := b.Instrs[len(b.Instrs)-1].(*ssa.If)
+			if !ok {
+				continue
+			}
+			bo, ok := iff.Cond.(*ssa.BinOp)
+			if !ok || !(an.IsNilConst(bo.X) || an.IsNilConst(bo.Y)) {
+				continue
+			}
+			v := bo.X
+			if an.IsNilConst(v) {
+				v = bo.Y
+			}
+			if an.IsErrorType(v.Type()) {
+				continue
+			}
+			n++
+			c.R.Check(an.Strip(v) != ssa.Value(fn.Params[1]), c.fnKey(fn)+"/nil-test", c.ipos(iff), "tests a setting of the extension", "Validate compares the schema it is handed with nil instead of the extension's own setting: an extension configured without it (no cache, no limit function) is accepted at start-up and fails on the first request that needs it")
+		}
+	}
+	if n == 0 {
+		c.R.Fail("%s: no nil test in a Validate method", rule)
 	}
 }
